@@ -623,10 +623,22 @@ def noDupNames : List ANode → List String → Bool
 
 def insertSorted (key : ANode → String) (x : ANode) : List ANode → List ANode
   | [] => [x]
-  | y :: ys => if key x < key y then x :: y :: ys else y :: insertSorted key x ys
+  | y :: ys => if key x ≤ key y then x :: y :: ys else y :: insertSorted key x ys
 
 /-- Stable sort by key (`sort_by_key`): insertion from the right keeps equal keys in order. -/
 def stableSort (key : ANode → String) (l : List ANode) : List ANode := l.foldr (insertSorted key) []
+
+/-- `str::split_whitespace`. -/
+def wordsL (l : List Char) : List (List Char) :=
+  let r := l.foldl (fun (acc : List (List Char) × List Char) c =>
+    if isWs c then (if acc.2.isEmpty then acc else (acc.1 ++ [acc.2], [])) else (acc.1, acc.2 ++ [c])) ([], [])
+  if r.2.isEmpty then r.1 else r.1 ++ [r.2]
+
+/-- `import_item_sort_key`: the text of an import item with the spacing the formatter gives it. -/
+def importSortKey (n : ANode) : String :=
+  (wordsL n.intoText.toList).foldl (fun key w =>
+    let w := String.ofList w
+    if !key.isEmpty && !key.endsWith "." && !w.startsWith "." then key ++ " " ++ w else key ++ w) ""
 
 /-- The guard of `convert_import_items`: no comment among the nodes and no name bound twice. -/
 def importSortable (nodes : List ANode) : Bool :=
@@ -634,7 +646,7 @@ def importSortable (nodes : List ANode) : Bool :=
 
 /-- The order in which `convert_import_items` hands the flattened nodes to the list stylist. -/
 def importOrder (cfg : PConfig) (nodes : List ANode) : List ANode :=
-  if cfg.reorder && importSortable nodes then stableSort ANode.intoText nodes else nodes
+  if cfg.reorder && importSortable nodes then stableSort importSortKey nodes else nodes
 
 /-- `convert_import_items`. -/
 def convImportItems (e : Env) (ctx : Ctx) (nodes : List ANode) : M Doc := do
@@ -662,6 +674,8 @@ def convImport (e : Env) (r : Rec) (ctx : Ctx) (n : ANode) : M Doc := do
   let itemNodes := itemsPart.flatMap fun c => if c.kind == .importItems then c.children else [c]
   if itemNodes.isEmpty then return prefixDoc
   let itemsDoc ← convImportItems e ctx itemNodes
-  pure ((prefixDoc ++ space) ++ itemsDoc)
+  -- a line comment at the end of the prefix must not swallow the items
+  let sep := if (prefixPart.getLast?.map (·.kind == .lineComment)).getD false then hardline else space
+  pure ((prefixDoc ++ sep) ++ itemsDoc)
 
 end Typstyle
